@@ -28,6 +28,7 @@ type Cfg struct {
 	K        int    // Throttling: number of input elements 0..K-1
 	ProdGap  int    // Throttling: producer sleeps this long before every send
 	NoErr    bool   // generators: nobody reads the error channel
+	Timeout  int    // >0: the context carries a deadline that many ticks away (instead of being cancelled by a thread)
 }
 
 func Bit(m, i int) bool { return m&(1<<i) != 0 }
@@ -38,6 +39,13 @@ func tick(n int) time.Duration { return time.Duration(n) }
 
 func Scenario(c Cfg) {
 	ctx, cancel := context.WithCancel(context.Background())
+	if c.Timeout > 0 {
+		ctx, cancel = context.WithTimeout(context.Background(), tick(c.Timeout))
+		go func() {
+			<-ctx.Done()
+			env.Log("cancel") // stamped with the instant of the deadline
+		}()
+	}
 	// generator consumer: follows its script, then cancels and leaves
 	genConsumer := func(out <-chan int) {
 		go func() {
